@@ -299,7 +299,7 @@ type c19Obs struct {
 }
 
 func (a c19Obs) equal(b c19Obs) bool {
-	if a.Kind != b.Kind || len(a.Map) != len(b.Map) {
+	if a.Kind != b.Kind || len(a.Map) != len(b.Map) { // kinds: tmpl, err, nil, panic, skip, hang
 		return false
 	}
 	for k, v := range a.Map {
@@ -360,21 +360,25 @@ type c19Provider interface {
 type c19H struct{ p *ghprovider.Provider }
 type c19T struct{ p *gtprovider.Provider }
 
+// c19NilNoErr marks the answer (nil, nil): a "successful" nil template. It is an observable of
+// its own (kind "nil"), distinct from an error and from a template.
+type c19NilNoErr struct{}
+
 func c19WrapH(t *htemplate.Template, err error) (c19Tmpl, error) {
-	if err != nil || t == nil {
-		if err == nil {
-			err = fmt.Errorf("nil template without error")
-		}
+	if err != nil {
 		return nil, err
+	}
+	if t == nil {
+		return c19NilNoErr{}, nil
 	}
 	return t, nil
 }
 func c19WrapT(t *ttemplate.Template, err error) (c19Tmpl, error) {
-	if err != nil || t == nil {
-		if err == nil {
-			err = fmt.Errorf("nil template without error")
-		}
+	if err != nil {
 		return nil, err
+	}
+	if t == nil {
+		return c19NilNoErr{}, nil
 	}
 	return t, nil
 }
@@ -467,6 +471,9 @@ func c19Call(p c19Provider, q c19Req) (t c19Tmpl, o c19Obs) {
 	if err != nil {
 		return nil, c19Obs{Kind: "err"}
 	}
+	if _, isNil := t.(c19NilNoErr); isNil {
+		return nil, c19Obs{Kind: "nil"}
+	}
 	return t, c19Obs{Kind: "tmpl", Map: c19Defs(t)}
 }
 
@@ -488,6 +495,9 @@ func c19CallRaw(p c19Provider, q c19Req) (t c19Tmpl, class string) {
 	}
 	if err != nil {
 		return nil, "err"
+	}
+	if _, isNil := t.(c19NilNoErr); isNil {
+		return nil, "nil"
 	}
 	return t, "tmpl"
 }
@@ -705,7 +715,11 @@ func c19GenReq(rng *RNG, n int) c19Req {
 func c19GenSeq(rng *RNG) []c19Req {
 	l := c19ReqLayouts[rng.Intn(len(c19ReqLayouts))]
 	v := c19ReqViews[rng.Intn(len(c19ReqViews))]
-	switch rng.Intn(9) {
+	switch rng.Intn(11) {
+	case 5: // the same view three times (the answers must agree, errors included), then its layout twice
+		return []c19Req{{Op: "view", L: l, V: v}, {Op: "view", L: l, V: v}, {Op: "view", L: l, V: v}, {Op: "layout", L: l}, {Op: "layout", L: l}}
+	case 6:
+		return []c19Req{{Op: "layout", L: l}, {Op: "layout", L: l}, {Op: "base"}, {Op: "base"}, {Op: "view", L: l, V: v}}
 	case 4: // two (layout, view) pairs whose concatenation with ':' coincides
 		if rng.Bool() {
 			return []c19Req{{Op: "view", L: "a:b", V: "c"}, {Op: "view", L: "a", V: "b:c"}, {Op: "exec", R: 0}, {Op: "view", L: "a:b", V: "c"}}
@@ -725,6 +739,12 @@ func c19GenSeq(rng *RNG) []c19Req {
 	n := 1 + rng.Intn(5)
 	seq := make([]c19Req, 0, n)
 	for i := 0; i < n; i++ {
+		if i > 0 && rng.Chance(35) { // ask again (also after an error)
+			if prev := seq[rng.Intn(i)]; prev.Op != "exec" {
+				seq = append(seq, prev)
+				continue
+			}
+		}
 		seq = append(seq, c19GenReq(rng, i))
 	}
 	return seq
@@ -781,6 +801,8 @@ func c19EvalSeq(o *Out, d *c19FS, html bool, reqs []c19Req, only map[string]map[
 			switch ob.Kind {
 			case "panic":
 				o.Fail("no_panic", fmt.Sprintf("%s %s provider: request %d %+v panicked", mode, c19KindName(html), i, q), "panic", desc(mode))
+			case "nil":
+				o.Fail("no_nil_template", fmt.Sprintf("%s %s provider: request %d %+v returned (nil, nil): a nil template without an error", mode, c19KindName(html), i, q), "nil", desc(mode))
 			case "hang":
 				o.Fail("no_hang", fmt.Sprintf("%s %s provider: sequence did not return", mode, c19KindName(html)), "hang", desc(mode))
 			}
@@ -908,7 +930,7 @@ func runC19(o *Out, rng *RNG, tier string, replay string) {
 	o.ShardSize = 60
 	o.Rule = "file sets on a memfs: helpers/, layouts/{default,main,alt,a,a:b}/, views/{v,w,u,c,b:c}/ with 0-3 entries per directory (files with and " +
 		"without the extension, nested directories up to depth 2, definition names from a pool of 8 so that layers overlap, a missing " +
-		"directory with probability 12-28%, ~2% empty/malformed files, every body a unique marker); per file set 5 request sequences " +
+		"directory with probability 12-28%, empty/malformed/duplicate-definition files (1% of files, 12% in every third file set), every body a unique marker); per file set 5 request sequences (the same request repeated 2-3 times, also after an error) " +
 		"(<= 5 requests over Base/Layout/View/Execute of an earlier result; layout/view names include \"\", missing ones) x {html,text} " +
 		"x {uncached,cached}; plus concurrent first use (child process, 16 goroutines per round). Non-trivial: some answer is a template " +
 		"with at least one definition; distinct by file set."
@@ -925,9 +947,9 @@ func runC19(o *Out, rng *RNG, tier string, replay string) {
 		coqSets = 6000
 	}
 	for s := 0; s < nSets; s++ {
-		errPct := 2
-		if s%10 == 9 {
-			errPct = 12 // the malformed stream
+		errPct := 1
+		if s%3 == 2 {
+			errPct = 12 // the malformed stream: empty files, broken syntax, duplicate definitions
 		}
 		d := c19GenFS(rng, errPct)
 		d.stats(o)
@@ -1071,8 +1093,27 @@ func runC19Child(o *Out, rng *RNG, tier string, replay string) {
 		// every goroutine asks for many keys in its own order: early calls miss and build (cache
 		// writes), later ones hit the fast path (cache reads) while other goroutines still build
 		per := 8 + rng.Intn(24)
+		// The FIRST request of every goroutine (released together by the start barrier) is a storm
+		// on the slow paths: Base, Layout(l) for one or two existing layout names (6 + 4
+		// goroutines reach layout() at the same time, for the same and for different names) and
+		// View(l, v) for both names.
+		var lnames []string
+		for _, l := range d.Layouts {
+			lnames = append(lnames, l.Name)
+		}
+		if len(lnames) == 0 {
+			lnames = []string{"default", "ghost"}
+		}
+		n1, n2 := lnames[rng.Intn(len(lnames))], lnames[rng.Intn(len(lnames))]
+		if n1 == "default" && rng.Bool() {
+			n1 = ""
+		}
+		v1, v2 := c19ReqViews[rng.Intn(len(c19ReqViews))], c19ReqViews[rng.Intn(len(c19ReqViews))]
+		storm := []c19Req{{Op: "layout", L: n1}, {Op: "layout", L: n2}, {Op: "layout", L: n1}, {Op: "base"},
+			{Op: "layout", L: n2}, {Op: "layout", L: n1}, {Op: "view", L: n1, V: v1}, {Op: "view", L: n2, V: v2}}
 		reqs := make([][]c19Req, G)
 		for g := range reqs {
+			reqs[g] = append(reqs[g], storm[g%len(storm)])
 			for k := 0; k < per; k++ {
 				q := c19GenReq(rng, 0)
 				if q.Op == "view" && q.V == "" {
